@@ -1,0 +1,231 @@
+//go:build verif
+
+// Contracts for the parser, checked by /verif/govc (build tag verif only).
+//
+// Part 1: the typing judgement of the language as pure spec functions, written
+// from Go's rules for the shared syntax and the README's builtin signatures.
+// Part 2: contract blocks.  "accepted implies well-typed" is proved by
+// structural induction: each parsing function's postcondition is the induction
+// hypothesis for its callers.
+
+package parser
+
+// specBinaryAllowed: arithmetic on int, concatenation on string, nothing else (Go spec, Arithmetic operators).
+func specBinaryAllowed(t ValueType, op string) bool {
+	if t.IsSlice() {
+		return false
+	}
+	switch t.DataType() {
+	case DATA_TYPE_INTEGER:
+		return op == "*" || op == "/" || op == "%" || op == "+" || op == "-"
+	case DATA_TYPE_STRING:
+		return op == "+"
+	}
+	return false
+}
+
+// specCompareAllowed: == != on every scalar type, ordering on int (ordering of
+// strings is left unspecified by the property, so it is not demanded either way).
+func specCompareAllowed(t ValueType, op string) bool {
+	if t.IsSlice() {
+		return false
+	}
+	ordered := op == "<" || op == "<=" || op == ">" || op == ">="
+	equality := op == "==" || op == "!="
+	switch t.DataType() {
+	case DATA_TYPE_BOOLEAN:
+		return equality
+	case DATA_TYPE_INTEGER:
+		return equality || ordered
+	case DATA_TYPE_STRING:
+		return equality || ordered
+	}
+	return false
+}
+
+// specTyped: every operand, index and builtin argument inside e has the type
+// its position requires.  Element lists (call arguments, slice literals) are
+// covered by quantified postconditions of the functions that parse them, not by
+// this recursive predicate (a recursive predicate over a growing list would need
+// an induction the solvers do not do).
+func specTyped(e Expression) bool {
+	if e == nil {
+		return false
+	}
+	switch n := e.(type) {
+	case BooleanLiteral:
+		return true
+	case IntegerLiteral:
+		return true
+	case StringLiteral:
+		return true
+	case VariableEvaluation:
+		return true
+	case Group:
+		return specTyped(n.child)
+	case UnaryOperation:
+		return n.operator == "!" && specTyped(n.expr) && n.expr.ValueType().IsBool() && n.valueType.IsBool()
+	case BinaryOperation:
+		return specTyped(n.left) && specTyped(n.right) && n.left.ValueType().Equals(n.right.ValueType()) && specBinaryAllowed(n.left.ValueType(), n.operator)
+	case Comparison:
+		return specTyped(n.left) && specTyped(n.right) && n.left.ValueType().Equals(n.right.ValueType()) && specCompareAllowed(n.left.ValueType(), n.operator)
+	case LogicalOperation:
+		return (n.operator == "&&" || n.operator == "||") && specTyped(n.left) && specTyped(n.right) && n.left.ValueType().IsBool() && n.right.ValueType().IsBool()
+	case SliceInstantiation:
+		return true // elements: quantified postcondition of evaluateSliceInstantiation
+	case SliceEvaluation:
+		return specTyped(n.value) && specTyped(n.index) && n.value.ValueType().IsSlice() && n.index.ValueType().IsInt() && n.value.ValueType().DataType() == n.dataType
+	case StringSubscript:
+		return specTyped(n.value) && n.value.ValueType().IsString() && specTyped(n.startIndex) && n.startIndex.ValueType().IsInt() && (n.endIndex == nil || (specTyped(n.endIndex) && n.endIndex.ValueType().IsInt()))
+	case Len:
+		return specTyped(n.expression) && (n.expression.ValueType().IsSlice() || n.expression.ValueType().IsString())
+	case Itoa:
+		return specTyped(n.value) && n.value.ValueType().IsInt()
+	case Exists:
+		return specTyped(n.path) && n.path.ValueType().IsString()
+	case Read:
+		return specTyped(n.path) && n.path.ValueType().IsString()
+	case Copy:
+		return specTyped(n.source) && n.source.ValueType().IsSlice() && n.destination.valueType.Equals(n.source.ValueType())
+	case Input:
+		return n.prompt == nil || (specTyped(n.prompt) && n.prompt.ValueType().IsString())
+	case FunctionCall:
+		return true // arguments: quantified postcondition of evaluateArguments
+	case AppCall:
+		return true
+	}
+	return false
+}
+
+// specInScope: does the stack of open constructs contain s?
+func specInScope(stack []scope, n int, s scope) bool {
+	if n <= 0 {
+		return false
+	}
+	return stack[n-1] == s || specInScope(stack, n-1, s)
+}
+
+// ----------------------------------------------------------------------------
+//
+//@ func (context).findScope
+//@   loop 1 invariant[C07] not-found-above: specInScope(c.scopeStack, len(c.scopeStack), s) == specInScope(c.scopeStack, i + 1, s) && i < len(c.scopeStack)
+//@   ensures[C07] searches-whole-stack: result == specInScope(c.scopeStack, len(c.scopeStack), s)
+//
+// Precedence chain (Go spec, Operator precedence): || < && < comparison < + - < * / % < unary.
+//
+//@ func (*Parser).evaluateExpression
+//@   ensures[C01] lowest-level-is-or: calls(evaluateLogicalOr) == 1 && result0 == res(evaluateLogicalOr, 0, 0) && err == res(evaluateLogicalOr, 0, 1)
+//@   ensures[C06] typed: err == nil ==> specTyped(result0)
+//
+//@ func (*Parser).evaluateLogicalOr
+//@   ensures[C01] or-over-and: calls(evaluateLogicalOperation) == 1 && arg(evaluateLogicalOperation, 0, 2) == "||" && arg(evaluateLogicalOperation, 0, 3) == "parser.(*Parser).evaluateLogicalAnd" && result0 == res(evaluateLogicalOperation, 0, 0) && err == res(evaluateLogicalOperation, 0, 1)
+//@   ensures[C06] typed: err == nil ==> specTyped(result0)
+//
+//@ func (*Parser).evaluateLogicalAnd
+//@   ensures[C01] and-over-comparison: calls(evaluateLogicalOperation) == 1 && arg(evaluateLogicalOperation, 0, 2) == "&&" && arg(evaluateLogicalOperation, 0, 3) == "parser.(*Parser).evaluateComparison" && result0 == res(evaluateLogicalOperation, 0, 0) && err == res(evaluateLogicalOperation, 0, 1)
+//@   ensures[C06] typed: err == nil ==> specTyped(result0)
+//
+//@ func (*Parser).evaluateAddition
+//@   ensures[C01] additive-over-multiplicative: calls(evaluateBinaryOperation) == 1 && seqEq(arg(evaluateBinaryOperation, 0, 2), seqOf("+", "-")) && arg(evaluateBinaryOperation, 0, 3) == "parser.(*Parser).evaluateMultiplication" && result0 == res(evaluateBinaryOperation, 0, 0) && err == res(evaluateBinaryOperation, 0, 1)
+//@   ensures[C06] typed: err == nil ==> specTyped(result0)
+//
+//@ func (*Parser).evaluateMultiplication
+//@   ensures[C01] multiplicative-over-unary: calls(evaluateBinaryOperation) == 1 && seqEq(arg(evaluateBinaryOperation, 0, 2), seqOf("*", "/", "%")) && arg(evaluateBinaryOperation, 0, 3) == "parser.(*Parser).evaluateUnaryOperation" && result0 == res(evaluateBinaryOperation, 0, 0) && err == res(evaluateBinaryOperation, 0, 1)
+//@   ensures[C06] typed: err == nil ==> specTyped(result0)
+//
+//@ func (*Parser).evaluateBinaryOperation
+//@   param higherPrioOperation ensures[C06] typed-result: err == nil ==> specTyped(result)
+//@   loop 1 invariant[C06] accumulator-typed: specTyped(leftExpression)
+//@   loop 1 invariant[C01,C04] left-assoc-source-order: calls(higherPrioOperation) >= 1 && (calls(higherPrioOperation) == 1 ==> leftExpression == res(higherPrioOperation, 0, 0)) && (calls(higherPrioOperation) == 2 ==> isType(leftExpression, "parser.BinaryOperation") && asType(leftExpression, "parser.BinaryOperation").left == res(higherPrioOperation, 0, 0) && asType(leftExpression, "parser.BinaryOperation").right == res(higherPrioOperation, 1, 0))
+//@   ensures[C06] typed: err == nil ==> specTyped(result0)
+//@   ensures[C01,C04] single-operand-unchanged: err == nil && calls(higherPrioOperation) == 1 ==> result0 == res(higherPrioOperation, 0, 0)
+//@   ensures[C01,C04] first-fold-left-then-right: err == nil && calls(higherPrioOperation) == 2 ==> isType(result0, "parser.BinaryOperation") && asType(result0, "parser.BinaryOperation").left == res(higherPrioOperation, 0, 0) && asType(result0, "parser.BinaryOperation").right == res(higherPrioOperation, 1, 0)
+//
+//@ func (*Parser).evaluateLogicalOperation
+//@   requires[C06] known-operator: operator == "&&" || operator == "||"
+//@   param higherPrioOperation ensures[C06] typed-result: err == nil ==> specTyped(result)
+//@   loop 1 invariant[C06] accumulator-typed: specTyped(leftExpression)
+//@   loop 1 invariant[C01,C04] left-assoc-source-order: calls(higherPrioOperation) >= 1 && (calls(higherPrioOperation) == 1 ==> leftExpression == res(higherPrioOperation, 0, 0)) && (calls(higherPrioOperation) == 2 ==> isType(leftExpression, "parser.LogicalOperation") && asType(leftExpression, "parser.LogicalOperation").left == res(higherPrioOperation, 0, 0) && asType(leftExpression, "parser.LogicalOperation").right == res(higherPrioOperation, 1, 0) && asType(leftExpression, "parser.LogicalOperation").operator == operator)
+//@   ensures[C06] typed: err == nil ==> specTyped(result0)
+//@   ensures[C01,C04] first-fold-left-then-right: err == nil && calls(higherPrioOperation) == 2 ==> isType(result0, "parser.LogicalOperation") && asType(result0, "parser.LogicalOperation").left == res(higherPrioOperation, 0, 0) && asType(result0, "parser.LogicalOperation").right == res(higherPrioOperation, 1, 0) && asType(result0, "parser.LogicalOperation").operator == operator
+//
+//@ func (*Parser).evaluateComparison
+//@   ensures[C06] typed: err == nil ==> specTyped(result0)
+//@   ensures[C01,C04] operands-in-source-order: err == nil && calls(evaluateComparison) == 1 ==> isType(result0, "parser.Comparison") && asType(result0, "parser.Comparison").left == res(evaluateAddition, 0, 0) && asType(result0, "parser.Comparison").right == res(evaluateComparison, 0, 0)
+//@   ensures[C01] no-operator-no-node: err == nil && calls(evaluateComparison) == 0 ==> result0 == res(evaluateAddition, 0, 0)
+//
+//@ func (*Parser).evaluateUnaryOperation
+//@   ensures[C06] typed: err == nil ==> specTyped(result0)
+//@   ensures[C01] negation-wraps-the-primary: err == nil ==> calls(evaluateSingleExpression) == 1 && (result0 == res(evaluateSingleExpression, 0, 0) || (isType(result0, "parser.UnaryOperation") && asType(result0, "parser.UnaryOperation").expr == res(evaluateSingleExpression, 0, 0)))
+//
+//@ func (*Parser).evaluateSingleExpression
+//@   ensures[C06] typed: err == nil ==> specTyped(result0)
+//
+//@ func (*Parser).evaluateVarEvaluation
+//@   ensures[C06] typed: err == nil ==> specTyped(result0) && isType(result0, "parser.VariableEvaluation")
+//
+//@ func (*Parser).evaluateFunctionCall
+//@   ensures[C06] typed: err == nil ==> specTyped(asExprFromCall(result0))
+//
+//@ func (*Parser).evaluateAppCall
+//@   ensures[C06] typed: err == nil ==> specTyped(asExprFromCall(result0))
+//
+//@ func (*Parser).evaluateSubscript
+//@   ensures[C06] typed: err == nil ==> specTyped(result0)
+//
+//@ func (*Parser).evaluateSliceInstantiation
+//@   loop 1 invariant[C06] elements-so-far: forall(k, 0, len(values), specTyped(values[k]) && values[k].ValueType().Equals(NewValueType(res(evaluateValueType, 0, 0).dataType, false)))
+//@   ensures[C06] typed: err == nil ==> specTyped(result0)
+//@   ensures[C06] every-element-has-the-element-type: err == nil ==> isType(result0, "parser.SliceInstantiation") && forall(k, 0, len(asType(result0, "parser.SliceInstantiation").values), specTyped(asType(result0, "parser.SliceInstantiation").values[k]) && asType(result0, "parser.SliceInstantiation").values[k].ValueType().Equals(NewValueType(asType(result0, "parser.SliceInstantiation").dataType, false)))
+//
+//@ func (*Parser).evaluateLen
+//@   ensures[C06] typed: err == nil ==> specTyped(result0)
+//
+//@ func (*Parser).evaluateItoa
+//@   ensures[C06] typed: err == nil ==> specTyped(result0)
+//
+//@ func (*Parser).evaluateExists
+//@   ensures[C06] typed: err == nil ==> specTyped(result0)
+//
+//@ func (*Parser).evaluateRead
+//@   ensures[C06] typed: err == nil ==> specTyped(result0)
+//
+//@ func (*Parser).evaluateCopy
+//@   ensures[C06] typed: err == nil ==> specTyped(result0)
+//
+//@ func (*Parser).evaluateInput
+//@   ensures[C06] typed: err == nil ==> specTyped(result0)
+//
+//@ func (*Parser).evaluateArguments
+//@   loop 1 invariant[C06] arguments-so-far-typed: forall(k, 0, len(args), specTyped(args[k])) && (params != nil ==> len(args) <= len(params) && forall(k, 0, len(args), params[k].valueType.Equals(args[k].ValueType())))
+//@   ensures[C06] arguments-typed: err == nil ==> forall(k, 0, len(result0), specTyped(result0[k]))
+//@   ensures[C06] arity-and-types-match-parameters: err == nil && params != nil ==> len(result0) == len(params) && forall(k, 0, len(params), params[k].valueType.Equals(result0[k].ValueType()))
+//
+//@ func (*Parser).evaluateBuiltInFunction
+//@   flag inline: true
+//@   loop 1 invariant[C06] arguments-typed: forall(k, 0, len(expressions), specTyped(expressions[k]))
+//
+//@ func (*Parser).evaluateParams
+//@   loop 1 invariant[C06] never-nil: params != nil
+//@   ensures[C06] never-nil-on-success: err == nil ==> result0 != nil
+//
+//@ func (*Parser).evaluateFunctionDefinition
+//@   ensures[C06] parameters-always-checked: err == nil ==> asType(result0, "parser.FunctionDefinition").params != nil
+//@   ensures[C07] only-at-top-level: !ctx.global() ==> err != nil
+//
+//@ func (*Parser).evaluateBreak
+//@   ensures[C07] only-in-loop-or-switch: (err == nil) == (specInScope(ctx.scopeStack, len(ctx.scopeStack), "for") || specInScope(ctx.scopeStack, len(ctx.scopeStack), "switch"))
+//
+//@ func (*Parser).evaluateContinue
+//@   ensures[C07] only-in-loop: (err == nil) == specInScope(ctx.scopeStack, len(ctx.scopeStack), "for")
+//
+//@ func (*Parser).evaluateReturn
+//@   ensures[C07] only-in-function: !specInScope(ctx.scopeStack, len(ctx.scopeStack), "function") ==> err != nil
+//
+//@ func (context).findFunction
+//@   ensures[C09] unknown-alias-finds-nothing: len(strings.TrimSpace(prefix)) > 0 && !has(c.imports, strings.TrimSpace(prefix)) ==> !result1
+//
+//@ func (context).findVariable
+//@   ensures[C09] unknown-alias-finds-nothing: global && len(strings.TrimSpace(prefix)) > 0 && !has(c.imports, strings.TrimSpace(prefix)) ==> !result1
+
+func asExprFromCall(c Call) Expression { return c }
